@@ -477,6 +477,10 @@ def checker_verdicts(ctx):
             ctx.fail("%s: write() mutates the file before a schema test (checker verdict on today's source)" % fmt,
                      {"kind": "verdict", "fmt": fmt}, observed=table[fmt], expected="check_vbm = true",
                      tags=dict(tags, what="mutation_before_validation"))
+        if ini != "true":
+            ctx.fail("%s: write() never records a schema, every call is a first write (checker verdict on today's source)"
+                     % fmt, {"kind": "verdict", "fmt": fmt}, observed=table[fmt], expected="check_init = true",
+                     tags=dict(tags, what="no_schema_recorded"))
         if unc:
             ctx.fail("%s: write() does not test %s against the file's schema (checker verdict on today's source)"
                      % (fmt, "/".join(unc)), {"kind": "verdict", "fmt": fmt}, observed=table[fmt],
@@ -823,6 +827,11 @@ class WTr:
                 return [("Init",)]
             if self.is_mutation_call(c):
                 return self.mutation(s, ctx)
+            if d.startswith("self.") and d not in ("self.flush", "self._validate_open", "self.close"):
+                argn = {n.id for a in list(c.args) + [k.value for k in c.keywords] for n in _ast.walk(a)
+                        if isinstance(n, _ast.Name)}
+                if any(_field_of_name(x) or x in ("xyz", "coordinates", "positions") for x in argn):
+                    raise WOutside("call %s(...) receives the data of the write call (line %d)" % (d, s.lineno))
             return []
         if isinstance(s, (_ast.Expr, _ast.Delete, _ast.Global)):
             return []
@@ -848,22 +857,54 @@ class WTr:
         return out
 
     def is_first_test(self, t):
+        """+1: the test is true on a first write (`self._needs_initialization`, `self._w_has_box is None`,
+        `self.frame_counter == 0`); -1: it is true on later writes (`not ...`, `is not None`, `!= 0`, `> 0`);
+        0: not a first-write test"""
         names = {n.attr for n in _ast.walk(t) if isinstance(n, _ast.Attribute) and isinstance(n.value, _ast.Name)
                  and n.value.id == "self"}
         args = {n.id for n in _ast.walk(t) if isinstance(n, _ast.Name) and n.id != "self"}
-        if names and names <= FIRST_ATTRS and not (args - {"None", "True", "False"}):
-            # `self._w_has_box is True/False` are tests of the recorded schema, not of "first write"
-            if "_w_has_box" in names:
-                return isinstance(t, _ast.Compare) and isinstance(t.comparators[0], _ast.Constant) \
-                    and t.comparators[0].value is None
-            return not isinstance(t, _ast.UnaryOp)
-        return False
+        if not names or not names <= FIRST_ATTRS or (args - {"None", "True", "False"}):
+            return 0
+        if isinstance(t, _ast.UnaryOp) and isinstance(t.op, _ast.Not):
+            return -self.is_first_test(t.operand)
+        if isinstance(t, _ast.Attribute):
+            return 1 if t.attr in ("_needs_initialization", "_needs_write_initialization") else 0
+        if isinstance(t, _ast.Compare) and len(t.ops) == 1 and isinstance(t.comparators[0], _ast.Constant) \
+                and isinstance(t.left, _ast.Attribute):
+            v, op = t.comparators[0].value, t.ops[0]
+            if t.left.attr == "_w_has_box" and v is None:
+                return 1 if isinstance(op, (_ast.Is, _ast.Eq)) else (-1 if isinstance(op, (_ast.IsNot, _ast.NotEq)) else 0)
+            if t.left.attr == "frame_counter" and v == 0:
+                return 1 if isinstance(op, _ast.Eq) else (-1 if isinstance(op, (_ast.NotEq, _ast.Gt)) else 0)
+            if t.left.attr in ("_needs_initialization", "_needs_write_initialization") and isinstance(v, bool):
+                pos = isinstance(op, (_ast.Is, _ast.Eq)) == v
+                return 1 if pos else -1
+        return 0
 
     def if_stmt(self, s, ctx):
         tests = ctx["tests"]
-        if self.is_first_test(s.test):
-            a = self.block(s.body, dict(ctx, in_first=True))
-            c = self.block(s.orelse, ctx)
+        pol = self.is_first_test(s.test)
+        if pol:
+            first_body, later_body = (s.body, s.orelse) if pol > 0 else (s.orelse, s.body)
+            a = self.block(first_body, dict(ctx, in_first=True))
+            c = self.block(later_body, ctx)
+            # the attribute the test reads must be updated by the first write (in the block itself, or, for a
+            # frame counter, by the Commit of the method / its helper); otherwise the file never leaves the
+            # "first write" state and no schema is ever recorded: no Init
+            attrs = {n.attr for n in _ast.walk(s.test) if isinstance(n, _ast.Attribute) and n.attr in FIRST_ATTRS}
+            assigned = set()
+            for n in _ast.walk(s):
+                if isinstance(n, (_ast.Assign, _ast.AugAssign)):
+                    for t in (n.targets if isinstance(n, _ast.Assign) else [n.target]):
+                        if isinstance(t, _ast.Attribute) and isinstance(t.value, _ast.Name) and t.value.id == "self":
+                            assigned.add(t.attr)
+            for n in _ast.walk(s):
+                if isinstance(n, _ast.Call) and (_dotted(n.func) or "").startswith("self._initialize"):
+                    assigned |= attrs          # _initialize_write / _initialize_headers set their own flags
+            if "frame_counter" in attrs and ctx.get("commits"):
+                assigned.add("frame_counter")
+            if not (attrs <= assigned):
+                a = [x for x in a if x != ("Init",)]
             return [("IfFirst", a, c)]
         mut = self.has_mutation(s)
         if not mut and self.has_raise(s):
@@ -1052,7 +1093,8 @@ def translate_writer(repo, entry):
     if any(_field_of_name(p) == "FTime" for p in params):
         api.append("FTime")
     tr = WTr(container, helpers)
-    steps = tr.block(fn.body, {"tests": [], "in_try": False, "in_first": False})
+    commits = bool(_re.search(r"self\.(?:%s)\s*\+=" % "|".join(COUNTER_ATTRS), src + "".join(helpers.values())))
+    steps = tr.block(fn.body, {"tests": [], "in_try": False, "in_first": False, "commits": commits})
     def dedupe(steps):
         out = []
         for x in steps:
